@@ -11,7 +11,7 @@ RULE = ("2-8 operations, one per thread, drawn from {construct an evaluator from
         "chain, 48 groups, nested conditionals), call a shared evaluator, recompile a shared evaluator old->new while others "
         "call it} and executed under a HARNESS-OWNED schedule: a generated list of (thread, run length in traced lines 1-300) "
         "hand-offs (cycled until the run ends; run lengths up to 5000) enforced through sys.settrace, so an execution is a pure function of (operations, schedule) and shrinks / "
-        "replays exactly; plus single-preemption sweeps (operation A is pre-empted once after L traced lines, B runs to completion, A finishes) for every L in the last 260 / first 24 lines of A (quick) or all lines (thorough) over construct||construct, recompile||call and call||recompile pairs, and double sweeps (L, M) over two concurrent calls on evaluators with different weights. Thorough tier adds real pre-emptive threads (2-16, switch interval 1 microsecond). Oracle: every "
+        "replays exactly; plus single-preemption sweeps (operation A is pre-empted once after L traced lines, B runs to completion, A finishes) for every L in the last 260 / first 24 lines of A (quick) or all lines (thorough) over construct||construct, recompile||call and call||recompile pairs, and double sweeps (L, M) over two concurrent calls on evaluators with different weights; and cold starts: fresh interpreters (6 per case) in which the first two constructions of the process overlap, the first thread pre-empted after a generated number of lines, with no warm-up of any kind. Thorough tier adds real pre-emptive threads (2-16, switch interval 1 microsecond). Oracle: every "
         "constructed evaluator behaves on a probe set like the one built alone; every call equals the sequential result; a "
         "call racing a recompile gives old(x) or new(x), never an exception; after the run a recompiled evaluator equals a "
         "fresh one of the new text. Non-trivial = schedule with >=1 hand-off while >=2 threads were mid-operation and at least "
@@ -19,7 +19,7 @@ RULE = ("2-8 operations, one per thread, drawn from {construct an evaluator from
 ASSUMPTIONS = [
     "the owned schedule switches at line granularity inside pyab_experiment and generated code; switches between two "
     "bytecodes of one line and inside C extensions (re, hashlib, pydantic) are only reachable by the probabilistic pre-emptive tier",
-    "at most one recompile per shared evaluator per case (two concurrent writers are outside the property's statement)",
+    "several threads may recompile one shared evaluator only to the SAME new text (two different concurrent writers are outside the property's statement)",
     "a schedule that cannot make progress within 30 s (a lock held by a descheduled thread) is reported as inconclusive, never as a violation",
 ]
 SHARDS = {"quick": 1, "thorough": 16}
@@ -62,7 +62,7 @@ def cases(draw, max_threads=8):
     shared = [draw(st.integers(0, len(SOURCES) - 1)) for _ in range(nshared)]
     n = draw(st.integers(2, max_threads))
     ops = []
-    recompiled = set()
+    recompiled = {}
     for _ in range(n):
         k = draw(st.sampled_from(["construct", "construct", "call", "call", "recompile"]))
         if k == "construct":
@@ -72,11 +72,11 @@ def cases(draw, max_threads=8):
                         "times": draw(st.integers(1, 3))})
         else:
             e = draw(st.integers(0, nshared - 1))
-            if e in recompiled:
-                ops.append({"k": "call", "ev": e, "probe": draw(st.integers(0, len(PROBES) - 1)), "times": 2})
-            else:
-                recompiled.add(e)
-                ops.append({"k": "recompile", "ev": e, "src": draw(st.integers(0, len(SOURCES) - 1))})
+            # several threads may recompile the same evaluator, but all to the SAME new text (two different writers are
+            # outside the property); each then calls the evaluator: after its own recompile returned it must see the new text
+            if e not in recompiled:
+                recompiled[e] = draw(st.integers(0, len(SOURCES) - 1))
+            ops.append({"k": "recompile", "ev": e, "src": recompiled[e], "probe": draw(st.integers(0, len(PROBES) - 1))})
     sched_ = draw(st.lists(st.tuples(st.integers(0, 15), st.one_of(st.integers(1, 12), st.integers(1, 300), st.integers(300, 5000))), min_size=4, max_size=200))
     return {"shared": shared, "ops": ops, "schedule": [list(s) for s in sched_]}
 
@@ -91,7 +91,10 @@ def _build_ops(case, shared_evs, E):
                 return [sut.call(shared_evs[op["ev"]], PROBES[op["probe"]]) for _ in range(op["times"])]
             fns.append(f)
         else:
-            fns.append(lambda op=op: shared_evs[op["ev"]].recompile(SOURCES[op["src"]]))
+            def g(op=op):
+                shared_evs[op["ev"]].recompile(SOURCES[op["src"]])
+                return [sut.call(shared_evs[op["ev"]], PROBES[op.get("probe", 0)])]
+            fns.append(g)
     return fns
 
 
@@ -114,6 +117,13 @@ def _judge_results(case, results, shared_evs, how):
                 j = next(j for j in range(len(PROBES)) if got[j] != _seq(op["src"])[j])
                 viol.append("%s: evaluator constructed in thread %d from source %d differs from the one built alone: probe %r gives %r, "
                             "alone %r" % (how, i, op["src"], PROBES[j], got[j], _seq(op["src"])[j]))
+        elif op["k"] == "recompile":
+            want = _seq(op["src"])[op.get("probe", 0)]
+            for got in r[1]:
+                if got != want:
+                    viol.append("%s: thread %d recompiled shared evaluator %d to source %d and then called it: got %r, the new text "
+                                "gives %r (a call made after one's own recompile returned must see the new experiment)"
+                                % (how, i, op["ev"], op["src"], got, want))
         elif op["k"] == "call":
             allowed_src = {case["shared"][op["ev"]]} | ({targets[op["ev"]]} if op["ev"] in targets else set())
             allowed = [_seq(s)[op["probe"]] for s in allowed_src]
@@ -178,6 +188,9 @@ def sweep_pairs(ctx):
     # a call pre-empted by a whole recompile
     for old, new in [(0, 2), (4, 1), (2, 0)]:
         pairs.append(([old], {"k": "call", "ev": 0, "probe": 3, "times": 2}, {"k": "recompile", "ev": 0, "src": new}))
+    # two threads recompile the same evaluator to the same new text, each then calls it
+    for old, new in [(0, 2), (1, 4), (5, 0)]:
+        pairs.append(([old], {"k": "recompile", "ev": 0, "src": new, "probe": 1}, {"k": "recompile", "ev": 0, "src": new, "probe": 4}))
     # a recompile pre-empted by an unrelated construction, and vice versa
     pairs.append(([0], {"k": "recompile", "ev": 0, "src": 1}, {"k": "construct", "src": 4}))
     pairs.append(([1], {"k": "construct", "src": 0}, {"k": "recompile", "ev": 0, "src": 5}))
@@ -208,7 +221,7 @@ def call_call_cases(ctx):
 def sweep_cases(ctx):
     pairs = sweep_pairs(ctx)
     if ctx.quick:
-        pairs = [pairs[i] for i in (0, 4, 8, 11, 13, 17) if i < len(pairs)]
+        pairs = [pairs[i] for i in (0, 4, 8, 11, 13, 16, 20) if i < len(pairs)]
     for shared, a, b in pairs:
         base = {"shared": shared, "ops": [a, b], "cycle": False}
         total = _lines_alone(dict(base, schedule=[]))
@@ -257,8 +270,39 @@ def judge_preemptive(case):
             "key": ["pre", case["shared"], case["ops"]], "sample": {"pre-emptive": True, "ops": case["ops"], "rounds": case["rounds"]}}
 
 
+# --------------------------------------------------------------------------- cold start (fresh interpreter per case)
+def judge_cold(case):
+    """the first compilations of a process overlap: nothing was parsed, compiled or evaluated before the threads start"""
+    import json
+    import os
+    import subprocess
+
+    verif = os.path.dirname(os.path.dirname(os.path.dirname(os.path.abspath(__file__))))
+    env = dict(os.environ, PYTHONPATH=os.pathsep.join([os.environ.get("PYAB_SRC", "/repo/src"), verif]), PYTHONDONTWRITEBYTECODE="1")
+    procs = []
+    for L in case["preempt_after"]:
+        spec = {"srcs": case["srcs"], "schedule": [[0, L], [1, 10 ** 9], [0, 10 ** 9]] + [[2, 10 ** 9]] * (len(case["srcs"]) > 2)}
+        procs.append((L, subprocess.Popen([sys.executable, "-B", os.path.join(verif, "pyabverif", "cold_start.py"), json.dumps(spec)],
+                                          env=env, stdout=subprocess.PIPE, stderr=subprocess.PIPE, text=True)))
+    viol = []
+    overl = 0
+    for L, p in procs:
+        so, se = p.communicate()
+        try:
+            r = json.loads(so)
+        except ValueError:
+            raise runner.HarnessError("cold-start child failed: %s" % (se[-500:],))
+        overl += 1 if r.get("overlap") else 0
+        for m in r["viol"]:
+            viol.append("%s (first thread pre-empted after %d traced lines; traced lines per thread %r)" % (m, L, r.get("lines")))
+    return {"viol": viol[:3], "nontrivial": overl > 0, "tags": ["cold-start"], "key": ["cold", case["srcs"], case["preempt_after"]],
+            "sample": {"cold_start_sources": case["srcs"], "preempt_after": case["preempt_after"]}}
+
+
 def judge_case(record):
     c = record["case"]
+    if "preempt_after" in c:
+        return judge_cold(c)["viol"]
     return (judge_preemptive(c) if "rounds" in c else judge(c))["viol"]
 
 
@@ -270,6 +314,12 @@ def run(ctx, rec):
     if rec.violations:
         return
     runner.direct_run(ctx, rec, "call-call-double-sweeps", call_call_cases(ctx), judge)
+    if rec.violations:
+        return
+    cold = st.builds(lambda a, b, ls: {"srcs": [a, b], "preempt_after": sorted(ls)}, st.integers(0, len(SOURCES) - 1),
+                     st.integers(0, len(SOURCES) - 1),
+                     st.lists(st.one_of(st.integers(1, 400), st.integers(400, 6000), st.integers(6000, 200000)), min_size=6, max_size=6, unique=True))
+    runner.hyp_run(ctx, rec, "cold-start", cold, judge_cold, ctx.n(3, 6), shrink=False)
     if rec.violations or ctx.quick:
         return
 
